@@ -6,7 +6,7 @@
 (* retained (spec -> impl).                                                   *)
 EXTENDS FastCheck, TLC, Json
 
-CONSTANTS MaxRefs, Emit
+CONSTANTS MaxRefs, Emit, ModRefs
 
 Others(m) == Mods \ {m}
 ExportChoices == {"-"} \cup Names \cup {"default"}
@@ -14,24 +14,28 @@ ExportChoices == {"-"} \cup Names \cup {"default"}
 ExportedOk(e) == \A m \in Mods : \A d1, d2 \in Decls : (d1 # d2 /\ e[m][d1] # "-") => e[m][d1] # e[m][d2]
 RefChoices(d) == { S \in SUBSET ((Decls \ {d}) \cup AliasIds) : Cardinality(S) <= MaxRefs }
 
-ProgOk(p) ==
-  /\ ExportedOk(p.exported)
-  \* an import alias names something its target really exports (otherwise the program does not type check)
-  /\ \A m \in Mods : \A a \in AliasIds : p.alias[m][a] # <<>> =>
-        LET E == [x \in Mods |-> { p.exported[x][d] : d \in Decls } \ {"-"}] IN
-        p.alias[m][a][2] \in E[p.alias[m][a][1]]
-  \* aliases that no declaration mentions are not written
-  /\ \A m \in Mods : \A a \in AliasIds : p.alias[m][a] # <<>> => \E d \in Decls : a \in p.refs[m][d]
-  /\ \A m \in Mods : \A d \in Decls : \A a \in p.refs[m][d] \cap AliasIds : p.alias[m][a] # <<>>
-
+\* per-module choices, filtered locally so that TLC never enumerates the product of ill-formed modules
+AliasChoices(m) == {<<>>} \cup { <<t, n>> : t \in Mods \ {m}, n \in Names \cup {"default"} }
+StarChoices(m) == {<<>>} \cup { <<t>> : t \in Mods \ {m} }
+ModRefChoices(m) == IF ModRefs THEN { S \in SUBSET (Mods \ {m}) : Cardinality(S) <= 1 } ELSE {{}}
+LocalOk(m, c) ==
+  /\ \A d1, d2 \in Decls : (d1 # d2 /\ c.exported[d1] # "-") => c.exported[d1] # c.exported[d2]       \* distinct export names
+  /\ \A d \in Decls : d \notin c.refs[d] /\ Cardinality(c.refs[d]) + Cardinality(c.modrefs[d]) <= MaxRefs
+  /\ \A a \in AliasIds : (c.alias[a] # <<>>) <=> (\E d \in Decls : a \in c.refs[d])                   \* aliases are written iff used
+ModChoices(m) ==
+  { c \in [ exported : [Decls -> ExportChoices], refs : [Decls -> SUBSET (Decls \cup AliasIds)], modrefs : [Decls -> ModRefChoices(m)],
+            alias : [AliasIds -> AliasChoices(m)], stars : StarChoices(m) ] : LocalOk(m, c) }
+Dummy == [ exported |-> [d \in Decls |-> "-"], refs |-> [d \in Decls |-> {}], modrefs |-> [d \in Decls |-> {}], alias |-> [a \in AliasIds |-> <<>>], stars |-> <<>> ]
+MC(m) == IF m \in Mods THEN ModChoices(m) ELSE {Dummy}
+\* an import alias names something its target really exports (otherwise the program does not type check)
+GlobalOk(p) == \A m \in Mods : \A a \in AliasIds : p.alias[m][a] # <<>> =>
+                  p.alias[m][a][2] \in ({ p.exported[p.alias[m][a][1]][d] : d \in Decls } \ {"-"})
 Init ==
-  /\ prog \in [ exported : [Mods -> [Decls -> ExportChoices]],
-                refs : { r \in [Mods -> [Decls -> SUBSET (Decls \cup AliasIds)]] : \A m \in Mods : \A d \in Decls : r[m][d] \in RefChoices(d) },
-                alias : [Mods -> [AliasIds -> {<<>>} \cup { <<t, n>> : t \in Mods, n \in Names \cup {"default"} }]],
-                stars : [Mods -> {<<>>} \cup { <<t>> : t \in Mods }] ]
-  /\ ProgOk(prog)
-  /\ \A m \in Mods : \A a \in AliasIds : prog.alias[m][a] # <<>> => prog.alias[m][a][1] # m
-  /\ \A m \in Mods : prog.stars[m] # <<>> => prog.stars[m][1] # m
+  /\ \E ce \in MC("e"), ca \in MC("a"), cb \in MC("b") :
+       LET all == [e |-> ce, a |-> ca, b |-> cb] IN
+       /\ prog = [ exported |-> [m \in Mods |-> all[m].exported], refs |-> [m \in Mods |-> all[m].refs], modrefs |-> [m \in Mods |-> all[m].modrefs],
+                   alias |-> [m \in Mods |-> all[m].alias], stars |-> [m \in Mods |-> all[m].stars] ]
+       /\ GlobalOk(prog)
   /\ pt = [x \in {Entry} |-> StarD] /\ tr = [x \in {Entry} |-> StarD] /\ pub = {}
 Next == \E m \in Mods : Pop(m)
 Spec == Init /\ [][Next]_vars
@@ -44,7 +48,7 @@ TracedAgree == Quiescent => DOMAIN tr = TracedSet
 LocalName(m, d) == IF exported[m][d] = "-" THEN "P_" \o m \o "_" \o d
                    ELSE IF exported[m][d] = "default" THEN "Def_" \o m ELSE exported[m][d]
 File(m) == "p1/" \o m \o ".ts"
-Case == [ prog |-> [ mods |-> Mods, entry |-> Entry, decls |-> Decls, exported |-> exported, refs |-> refs, alias |-> alias, stars |-> stars ],
+Case == [ prog |-> [ mods |-> Mods, entry |-> Entry, decls |-> Decls, exported |-> exported, refs |-> refs, alias |-> alias, stars |-> stars, modrefs |-> modrefs ],
           expect |-> [ public |-> [f \in { File(m) : m \in Mods } |-> LET m == CHOOSE x \in Mods : File(x) = f IN
                                       { LocalName(m, d) : d \in { x \in Decls : <<m, x>> \in PublicSet } }],
                        decls |-> [f \in { File(m) : m \in Mods } |-> LET m == CHOOSE x \in Mods : File(x) = f IN { LocalName(m, d) : d \in Decls }],
